@@ -322,7 +322,7 @@ def structural(repo):
                 consts[s.targets[0].id] = s.value
     item = consts.get('ALLOWED_GETITEM_TYPES')
     ok = isinstance(item, ast.Tuple) and {ast.unparse(e) for e in item.elts} <= want_item
-    out.append({'id': 'allowed-getitem-types', 'kind': 'effect', 'ok': ok if t else None,
+    out.append({'id': 'allowed-getitem-types', 'definite': True, 'kind': 'effect', 'ok': ok if t else None,
                 'label': 'ALLOWED_GETITEM_TYPES contains only exact builtin container types (their special methods '
                          'are not user code)', 'detail': norm(item)})
     b = consts.get('ALLOWED_BOOL_TYPES')
@@ -330,7 +330,7 @@ def structural(repo):
     if isinstance(b, ast.BinOp) and isinstance(b.op, ast.Add) and norm(b.left) == 'ALLOWED_GETITEM_TYPES' \
             and isinstance(b.right, ast.Tuple):
         okb = {ast.unparse(e) for e in b.right.elts} <= want_bool_extra
-    out.append({'id': 'allowed-bool-types', 'kind': 'effect', 'ok': okb if t else None,
+    out.append({'id': 'allowed-bool-types', 'definite': True, 'kind': 'effect', 'ok': okb if t else None,
                 'label': 'ALLOWED_BOOL_TYPES = ALLOWED_GETITEM_TYPES + exact builtin scalar/set types',
                 'detail': norm(b)})
     # the setting is copied onto the inference state, and is the only writer
